@@ -8,7 +8,7 @@ spec/address_map.toml.  RAM identity (index = address, value = byte) is decided
 by def-use chains in the MIR of the two decoders (A9)."""
 from .. import absint, step, shapes, mirutil, spec, harness
 from .. import domain as D
-from ..domain import Agg, En, Ref, TOP, BOT, Rng, Opaque, ArrS, Arr
+from ..domain import Agg, En, Ref, TOP, BOT, Rng, Opaque, ArrS, Arr, Fl
 from ..facts import AnchorMissing
 
 LEVEL = "proof"
@@ -298,6 +298,53 @@ def run(ctx):
                "Bus::output_%s returns what the program wrote to %#04x" % (nm, 0xFE + k), p.need_body("%s::output_%s" % (BUS, nm)).loc(),
                "output_fe(), output_ff() after the write: %s" % got)
 
+    # ---- "set from outside" at construction: the input registers named by a configuration are what the program reads,
+    # also when the machine is constructed together with a program (the load's master reset must not wipe them) - for the
+    # library constructors and for the interactive front end's own constructor
+    rb_ = p.need_body(BUS + "::read")
+    MC = "L::machine::MachineConfig"
+    mcf = p.field_names(MC)
+    progv = shapes.build(p, "L::compiler::ByteCode")
+
+    def inputs_after(fn_path, args_of, mpath):
+        Ic = absint.Interp(p)
+        Ic.unroll = 8
+        stc = absint.State()
+        mv = Ic.run_body(p.need_body(fn_path), args_of(Ic, stc), stc, 0)
+        badc = [e for e in Ic.events if e.kind in ("wild_write", "unknown_call_value", "recursion_or_depth", "unknown_terminator")]
+        ma_ = Ic.new_alloc(stc, "constructed", mv)
+        bus_path = mpath
+        return [Ic.run_body(rb_, [Ref(ma_, bus_path, False), 0xFC + k_], stc, 0) for k_ in range(4)], badc
+    conf_v = Agg([Opaque("IN." + f_[len("input_"):].upper()) if f_.startswith("input_") else
+                  (Fl(0.0, 5.0) if f_ in ("temp", "analog_input1", "analog_input2") else TOP) for f_ in mcf])
+    want_in = [Opaque("IN.FC"), Opaque("IN.FD"), Opaque("IN.FE"), Opaque("IN.FF")]
+    raw_i = p.field_index(MACH, "raw")
+    bus_i = p.field_index("L::machine::raw::RawMachine", "bus")
+    cases_c = [("Machine::new", MACH + "::new", lambda Ic, stc: [conf_v], (raw_i, bus_i)),
+               ("Machine::new_with_program", MACH + "::new_with_program", lambda Ic, stc: [conf_v, progv], (raw_i, bus_i))]
+    MS_ = "B::tui::supervisor_wrapper::MachineState"
+    if MS_ in p.types and "B::args::InitialMachineConfiguration" in p.types:
+        icf = p.field_names("B::args::InitialMachineConfiguration")
+        iconf = Agg([Opaque("IN." + f_.upper()) if f_ in ("fc", "fd", "fe", "ff") else
+                     (Fl(0.0, 5.0) if f_ in ("temp", "ai1", "ai2") else TOP) for f_ in icf])
+        mi = p.field_index(MS_, "machine")
+
+        def ms_args(with_prog):
+            def f(Ic, stc):
+                ca = Ic.new_alloc(stc, "conf", iconf)
+                return [Ref(ca, (), False)] + ([Opaque("PATH"), progv] if with_prog else [])
+            return f
+        for nm_ in [k for k in p.bodies if k.startswith(MS_ + "::new") and "{closure" not in k]:
+            cases_c.append(("MachineState::" + nm_.rsplit("::", 1)[-1], nm_, ms_args(nm_.endswith("new_with_program")), (mi, raw_i, bus_i)))
+    for label_, fnp_, argf_, mpath_ in cases_c:
+        try:
+            got_, badc_ = inputs_after(fnp_, argf_, mpath_)
+        except absint.AnalysisLimit as e_:
+            got_, badc_ = None, [str(e_)]
+        chk.ob("construct/%s" % label_, got_ == want_in and not badc_,
+               "a machine constructed from a configuration (with or without a program) presents the configured input registers at "
+               "0xFC-0xFF", p.need_body(fnp_).loc(), "reads of 0xfc..0xff after construction: %s %s" % (got_, [repr(x)[:80] for x in badc_[:1]]),
+               "A4 of the constructor with opaque configured values, then Bus::read")
     # ---- a program's load/store is the bus access the control word asks for: on every path, at the address in the
     # selected register, storing the ALU output (pipeline agreement, shared with C01) ---------------------------------
     from .. import pipeline
